@@ -1429,15 +1429,18 @@ class Node:
         conn.host_identity = cer_origin_host
         conn.host_ip_address = [i[1] for i in message.host_ip_address]
 
+        # the CEA is queued before the connection is offered for routing, so
+        # that a request of an application waiting for a ready connection
+        # cannot get ahead of it
+        answer.result_code = constants.E_RESULT_CODE_DIAMETER_SUCCESS
+        self.send_message(conn, answer)
+
         self._assign_peer_connection(conn)
         self._flag_connection_as_ready(conn)
         self.logger.info(
             f"{conn} is now ready, determined supported auth applications: "
             f"{supported_auth_apps}, supported acct applications: "
             f"{supported_acct_apps}")
-
-        answer.result_code = constants.E_RESULT_CODE_DIAMETER_SUCCESS
-        self.send_message(conn, answer)
 
     def receive_dpa(self, conn: PeerConnection, message: DisconnectPeerAnswer):
         self.logger.info(f"{conn} got DPA")
